@@ -117,6 +117,23 @@ def run(ctx):
     crosscheck(ctx, "C14.R3", CM + ".ExtendedSchemaMatcher.finish", REF,
                "extschema_finish", CM + ".ExtendedSchemaMatcher",
                "options first, then the base finish")
+    # override values are injected when the section is finished; what
+    # finishing raises (a conversion error for an unconvertible override)
+    # must pass through the parser as it is, for '<t/>' as for '</t>'
+    PCq = "ZConfig.cfgparser.ZConfigParser"
+    for live, ref, what in (
+            ("_end_section", "finish_section", "section end: errors of "
+             "finish() keep their class, only the position is filled in"),
+            ("start_section", "start_section", "the empty form finishes "
+             "the section through the same handlers"),
+            ("end_section", "end_section", "closer")):
+        lf = m.lookup_method(PCq, live)
+        if lf is None:
+            run.soft_error("anchor vanished: %s.%s" % (PCq, live))
+            continue
+        r = X.compare(P, lf, X.spec_method(P, "ref_cfgparser.py", ref, PCq))
+        from rules.common import verdict
+        verdict(run, "C14.R3", lf, what, r, m)
     crosscheck(ctx, "C14.R3", OB + ".finish", REF, "optionbag_finish", OB,
                "anything left -> ConfigurationError")
     crosscheck(ctx, "C14.R3", OB + ".get_key", REF, "get_key", OB,
